@@ -21,6 +21,10 @@ theorem inv_fromString (cs : List Char) :
 /-- `len` is the number of code points, whatever the representation -/
 theorem len_chars (s : FS) (h : s.wf) : s.len = s.buf.length := FStr.len_chars s h
 
+/-- the byte offsets of the model are those of the UTF-8 encoding: the encoded buffer (what the driver shows and
+the tie compares with the implementation's bytes) is exactly `byteLen` long, one to four bytes per code point -/
+theorem utf8_length (cs : List Char) : (encode cs).length = byteLen cs := encode_length cs
+
 /-- slicing is list slicing on code points: for `a ≤ len` and `a ≤ b` the Rust code neither panics nor
 leaves the invariant, and yields the code points `a … min b len` (the end is clipped as for lists) -/
 theorem substring_chars (s : FS) (hs : s.wf) (a b : Nat) (ha : a ≤ s.buf.length) (hab : a ≤ b) :
